@@ -97,7 +97,7 @@ def run(ctx):
 
     # 2. the real store: gated schedules + seeded concurrent programs under the race detector
     lin_path = os.path.join(ctx.work, "lin.ndjson")
-    nprog = int(os.environ.get("VERIF_C08_PROGRAMS", "18" if ctx.quick else "150"))
+    nprog = int(os.environ.get("VERIF_C08_PROGRAMS", "14" if ctx.quick else "150"))
     denv = {"VERIF_LIN_OUT": lin_path, "VERIF_PROGRAMS": nprog, "VERIF_BIG_W": 16 if ctx.quick else 32}
     n_inc = len(ctx.inconclusives)
     want_race = os.environ.get("VERIF_C08_NORACE", "") == ""
